@@ -1,6 +1,7 @@
 """C23 — merge-time permission hardening never lets unsafe modes through (structural clauses)."""
 import ast
 
+from ..core import generic as G
 from ..core import astutil as A
 from ..core import match as M
 from ..core.model import dotted
@@ -182,6 +183,12 @@ def run(ctx):
     rpres = A.try_literal(ME.assigns.get("replace_csets_preserve"))
     ctx.check("R4", ME, pres == ["new_cset"] and "new_cset" in (rpres or ()), "new_cset-preserved", "new_cset is preserved across hooks (its hardened entries are not regenerated from the raw package contents)", f"preserve lists: install={pres} replace={rpres}")
     ctx.floor("R4", 9)
+
+    # ---- R5 the list of offenders survives the warning loop; warnings cannot abort the correction -------------------
+    TF = ["src/pkgcore/merge/triggers.py", "src/pkgcore/merge/engine.py"]
+    G.single_pass(ctx, "R5", TF)
+    G.format_templates(ctx, "R5", TF)
+    ctx.floor("R5", 2)
 
 
 MUTANTS = [
